@@ -77,11 +77,40 @@ func randomBehaviour(rnd *rand.Rand) []map[string]any {
 		}
 		return out
 	}
+	// nftables verdict map (ignored by the iptables backends)
+	const fwMap = "filter-cali-fw"
+	var mapMembers []any
+	mapDefined := false
+	randMembers := func() []any {
+		out := []any{}
+		for _, k := range []string{"e1", "e2", "e3"} {
+			if rnd.Intn(2) == 0 {
+				out = append(out, m("k", k, "tgt", fchains[rnd.Intn(3)]))
+			}
+		}
+		return out
+	}
 	fixup := func() {
+		// a rule that looks up the verdict map needs the map
+		usesMap := false
+		for _, rs := range hooks {
+			for _, r := range rs {
+				usesMap = usesMap || r.(map[string]any)["tgt"] == "@"+fwMap
+			}
+		}
+		if usesMap && !mapDefined {
+			mapMembers, mapDefined = randMembers(), true
+			beh = append(beh, m("op", "set_map", "name", fwMap, "members", mapMembers))
+		}
 		// define every chain that is mentioned anywhere
 		for changed := true; changed; {
 			changed = false
 			need := map[string]bool{}
+			if mapDefined {
+				for _, r := range mapMembers {
+					need[r.(map[string]any)["tgt"].(string)] = true
+				}
+			}
 			for _, rs := range hooks {
 				for _, r := range rs {
 					need[r.(map[string]any)["tgt"].(string)] = true
@@ -105,7 +134,15 @@ func randomBehaviour(rnd *rand.Rand) []map[string]any {
 	randEdit := func() map[string]any {
 		all := []string{"K1", "K2", "cali-a", "cali-b", "cali-c", "other", "K1", "cali-a", "cali-a", "cali-b"}
 		c := all[rnd.Intn(len(all))]
-		switch rnd.Intn(11) {
+		switch rnd.Intn(13) {
+		case 11:
+			return []map[string]any{m("kind", "deltable"), m("kind", "delmap", "map", fwMap),
+				m("kind", "delmember", "map", fwMap, "k", []string{"e1", "e2", "e3"}[rnd.Intn(3)])}[rnd.Intn(3)]
+		case 12:
+			if rnd.Intn(2) == 0 {
+				return m("kind", "addmember", "map", fwMap, "k", "e9", "tgt", fchains[rnd.Intn(3)])
+			}
+			return m("kind", "addmap", "map", "filter-cali-old", "members", randMembers())
 		case 9, 10:
 			return m("kind", "replace", "chain", c, "pos", []int{1, 2, 9, 9}[rnd.Intn(4)], "rule", junk())
 		case 0, 1:
@@ -164,6 +201,20 @@ func randomBehaviour(rnd *rand.Rand) []map[string]any {
 				delete(des, name)
 				beh = append(beh, m("op", "remove_chain", "name", name))
 			}
+		case c < 6 && rnd.Intn(3) == 0:
+			if mapDefined && rnd.Intn(4) == 0 {
+				// the hook rule goes first, then the map (as callers do)
+				hooks["iK1"] = bodySeq(-1, 2)
+				beh = append(beh, m("op", "set_ins", "chain", "K1", "rules", hooks["iK1"]), m("op", "remove_map", "name", fwMap))
+				mapDefined, mapMembers = false, nil
+			} else {
+				mapMembers, mapDefined = randMembers(), true
+				beh = append(beh, m("op", "set_map", "name", fwMap, "members", mapMembers))
+				if rnd.Intn(2) == 0 {
+					hooks["iK1"] = append(bodySeq(-1, 1), m("id", 6, "tgt", "@"+fwMap))
+					beh = append(beh, m("op", "set_ins", "chain", "K1", "rules", hooks["iK1"]))
+				}
+			}
 		case c < 7:
 			kc := kch[rnd.Intn(2)]
 			rs := bodySeq(-1, 3)
@@ -181,6 +232,7 @@ func randomBehaviour(rnd *rand.Rand) []map[string]any {
 		case c < 13:
 			des = map[string][]any{}
 			hooks = map[string][]any{}
+			mapDefined, mapMembers = false, nil
 			beh = append(beh, m("op", "restart"))
 		default:
 			fixup()
@@ -219,6 +271,9 @@ func randomBehaviour(rnd *rand.Rand) []map[string]any {
 						opn = "set_app"
 					}
 					beh = append(beh, m("op", opn, "chain", key[1:], "rules", rs))
+				}
+				if mapDefined {
+					beh = append(beh, m("op", "set_map", "name", fwMap, "members", mapMembers))
 				}
 			}
 		}
